@@ -194,7 +194,10 @@ H_CTX = ['T ::= %s', 'T ::= SEQUENCE { f %s }', 'T ::= SEQUENCE { f %s OPTIONAL,
          'T ::= SEQUENCE { f INTEGER } (WITH COMPONENTS { f (%s) })', 'T ::= %s (CONSTRAINED BY { })', 'T ::= INSTANCE OF %s', 'T ::= TYPE-IDENTIFIER.&Type (%s)']
 H_ENV = ['', 'A ::= CHOICE { a INTEGER, b SEQUENCE { x NULL } }', 'A ::= INTEGER', 'A ::= A', 'A ::= CHOICE { a a < A }', 'A ::= CHOICE { a CHOICE { b NULL } }',
          'CLS ::= CLASS { &id INTEGER UNIQUE, &Type } A CLS ::= { &id 1, &Type NULL }', 'A ::= SEQUENCE { x A OPTIONAL }', 'A ::= ENUMERATED { a }']
-H_VALUES = ['Ne-Ty ::= SEQUENCE { c CHOICE { one INTEGER, two BOOLEAN } } v Ne-Ty ::= { c one:4 }',
+H_VALUES = ['MY-CLASS ::= CLASS { &id INTEGER UNIQUE, &Type } WITH SYNTAX { ID &id TYPE &Type } Gen{MY-CLASS : obj} ::= SEQUENCE { id MY-CLASS.&id, b BOOLEAN } Inst ::= Gen{{ID 1 TYPE INTEGER}}',
+            'MY-CLASS ::= CLASS { &id INTEGER UNIQUE } Gen{MY-CLASS : obj} ::= SEQUENCE { id MY-CLASS.&id } o MY-CLASS ::= { &id 1 } Inst ::= Gen{o} Ins2 ::= Gen{{&id 2}}',
+            'MY-CLASS ::= CLASS { &id INTEGER UNIQUE } Gen{MY-CLASS : Set} ::= SEQUENCE { id MY-CLASS.&id ({Set}) } Inst ::= Gen{{ {&id 1} | {&id 2} }}',
+            'Ne-Ty ::= SEQUENCE { c CHOICE { one INTEGER, two BOOLEAN } } v Ne-Ty ::= { c one:4 }',
             'Ne-Ty ::= SET { c-d CHOICE { one-x INTEGER, two BOOLEAN } } v Ne-Ty ::= { c-d one-x:4 }',
             'Ne-Ty ::= SEQUENCE { s SEQUENCE { c CHOICE { one INTEGER } } } v Ne-Ty ::= { s { c one:4 } }',
             'Ne-Ty ::= CHOICE { c CHOICE { one INTEGER, two BOOLEAN } } v Ne-Ty ::= c : one : 4',
